@@ -31,8 +31,22 @@ def _dq():
             "UnitDualQuaternion": lambda k: UnitDualQuaternion(SE3(1.0 + k, 2, 3) * SE3.Rz(0.1 * k + 0.3))}
 
 
-def make(kind, n, base_id, left_kind=None):
-    """An operand of the given kind holding n values; None if it cannot exist."""
+def make(kind, n, base_id, left_kind=None, variant="generic"):
+    """An operand of the given kind holding n values; None if it cannot exist.  variant 'subclass-valued': an object
+    of the general class (Quaternion, DualQuaternion) holding values of its special subclass (unit norm, rigid motion)"""
+    if kind == "Quaternion" and variant == "subclass-valued":
+        from spatialmath import Quaternion
+        u = inject("UnitQuaternion", list(range(base_id, base_id + n)))
+        q = Quaternion()
+        q.data = [np.array(a, dtype=float, copy=True) for a in u.data]
+        return q
+    if kind == "DualQuaternion" and variant == "subclass-valued":
+        if n != 1:
+            return None
+        from spatialmath.DualQuaternion import DualQuaternion
+        from spatialmath import Quaternion
+        u = _dq()["UnitDualQuaternion"](base_id)
+        return DualQuaternion(Quaternion(np.array(u.real.vec, dtype=float)), Quaternion(np.array(u.dual.vec, dtype=float)))
     if kind in LIST_CLASSES:
         return inject(kind, list(range(base_id, base_id + n)))
     if kind in ("DualQuaternion", "UnitDualQuaternion"):
@@ -92,8 +106,8 @@ def classify(r):
 
 def execute(e):
     op, L, R = e["op"], e["l"], e["r"]
-    a = make(L["c"], L["n"], 1)
-    b = make(R["c"], R["n"], 11, left_kind=L["c"])
+    a = make(L["c"], L["n"], 1, variant=L.get("v", "generic"))
+    b = make(R["c"], R["n"], 11, left_kind=L["c"], variant=R.get("v", "generic"))
     if a is None or b is None:
         return None
     try:
@@ -110,6 +124,9 @@ def judge_cell(j, e, got):
     multi = "multi" if (L["n"] > 1 or R["n"] > 1) else "single"
     site = "%s%s" % (L["c"], "__or__" if op == "|" else op)            # the dispatch site: left class and operator
     feat = "%s;len(%d,%d)" % (R["c"], L["n"], R["n"])
+    if L.get("v", "generic") != "generic" or R.get("v", "generic") != "generic":
+        feat += ";%s" % "+".join(x for x in (("left-" + L["v"]) if L.get("v", "generic") != "generic" else "",
+                                             ("right-" + R["v"]) if R.get("v", "generic") != "generic" else "") if x)
     detail = {"op": op, "l": L, "r": R, "documented": doc, "got": got}
     if doc["k"] == "unspec":
         # even where the documentation decides nothing else: an arithmetic operator never returns None
@@ -160,7 +177,7 @@ def run(tier):
     seen = set()
     n_exec = 0
     for e in cells:
-        key = (e["op"], e["l"]["c"], e["l"]["n"], e["r"]["c"], e["r"]["n"])
+        key = (e["op"], e["l"]["c"], e["l"]["n"], e["r"]["c"], e["r"]["n"], e["l"].get("v"), e["r"].get("v"))
         if key in seen:
             continue
         seen.add(key)
